@@ -254,6 +254,25 @@ def decodeShow (dec : Ty → List Byte → Option (Val × List Byte)) (ty : Ty) 
   | some (v, r) => showVal ty v ++ " " ++ toString (input.length - r.length)
   | none => "fault"
 
+/-- round 3c: an input is COMPLETE when the strict reader of the documented layout (`decodeA`: `none` as soon as a
+byte that is not there is needed) accepts it.  For every other input - truncated, hostile counts - the property only
+states "never reads beyond the bytes supplied": the compared result is the canonical word `truncated-ok` (the model's
+reader stayed inside its input: `some`), NOT the value (theorems `truncated_decode_zero_extended_*` describe it). -/
+def completeIn (ty : Ty) (input : List Byte) : Bool := (decodeA ty input).isSome
+
+def truncVerdict {α : Type} (r : Option (α × List Byte)) (input : List Byte) : String :=
+  match r with
+  | some (_, rest) => if rest.length ≤ input.length then "truncated-ok" else "truncated-cursor-out-of-range"
+  | none => "fault"
+
+def decodeShowC (dec : Ty → List Byte → Option (Val × List Byte)) (ty : Ty) (input : List Byte) : String :=
+  if completeIn ty input then decodeShow dec ty input else truncVerdict (dec ty input) input
+
+/-- index of the first `loads(n)` that asks for more bytes than are left -/
+def firstShort (len : Nat) : List Nat → Nat → Nat → Option Nat
+  | [], _, _ => none
+  | n :: ns, pos, i => if pos + n > len then some i else firstShort len ns (pos + n) (i + 1)
+
 def parseKs (s : String) (len : Nat) : Option (List Nat) :=
   if s = "all" then some (List.range (len + 1))
   else (s.splitOn ",").mapM String.toNat?
@@ -288,7 +307,9 @@ def intoOp (st : String) (ty : Ty) (d v : Val) (rest : List Byte) (k : Option Na
   let input := match k with
     | some n => full.take n
     | none => full
-  match (if st = "a" then decodeInto true ty d input else decodeIntoS true ty d input) with
+  let res := if st = "a" then decodeInto true ty d input else decodeIntoS true ty d input
+  if k.isSome ∧ input.length < e.length then bytesHex e ++ " " ++ truncVerdict res input else
+  match res with
   | some (v', r) => bytesHex e ++ " " ++ showVal ty v' ++ " " ++ toString (input.length - r.length)
   | none => bytesHex e ++ " fault"
 
@@ -307,6 +328,7 @@ def stepCore (line : List String) : Option String :=
         let (ts, vs) ← parseItems items
         if !wfbs ts vs then pure "illformed" else
         let input := (encodeFieldsA ts vs).take kn
+        if kn < (encodeFieldsA ts vs).length then pure (truncVerdict (decodeFieldsB ts input) input) else
         match decodeFieldsB ts input with
         | some (vs', r) => pure (" ".intercalate (showFields ts vs') ++ " " ++ toString (input.length - r.length))
         | none => pure "fault"
@@ -316,6 +338,7 @@ def stepCore (line : List String) : Option String :=
         if !supportedSs ts then pure "unsupported" else
         if !wfbs ts vs then pure "illformed" else
         let input := (encodeFieldsS ts vs).take kn
+        if kn < (encodeFieldsS ts vs).length then pure (truncVerdict (decFieldsS ts input) input) else
         match decFieldsS ts input with
         | some (vs', r) => pure (" ".intercalate (showFields ts vs') ++ " " ++ toString (input.length - r.length))
         | none => pure "fault"
@@ -336,6 +359,11 @@ def stepCore (line : List String) : Option String :=
         let k ← ks.toNat?
         if !wfb ty va || pl.length > 65535 then pure "illformed" else
         let input := (dumpBuffer pl ++ encodeA ty va).take k
+        if k < (dumpBuffer pl ++ encodeA ty va).length then
+          match loadWritableB input c with
+          | none => pure "fault"
+          | some (_, r) => pure (truncVerdict (decodeB ty r) input)
+        else
         match loadWritableB input c with
         | none => pure "fault"
         | some (got, r) =>
@@ -359,7 +387,13 @@ def stepCore (line : List String) : Option String :=
         let bs ← parseBytes? h
         let ns ← (nss.splitOn ",").mapM String.toNat?
         let (xs, st) := loadsSeq ns ⟨bs, 0⟩
-        pure ("|".intercalate (xs.map bytesHex) ++ " " ++ toString st.avail)
+        match firstShort bs.length ns 0 0 with
+        | none => pure ("|".intercalate (xs.map bytesHex) ++ " " ++ toString st.avail)
+        | some c =>
+          -- from the first short read on: only "position within the input" is compared
+          let segs := (xs.zip (List.range xs.length)).map fun (x, i) => if i < c then bytesHex x else "truncated-ok"
+          pure ("|".intercalate segs ++ " " ++
+            (if st.avail ≤ bs.length then "truncated-ok" else "truncated-cursor-out-of-range"))
     | ["dat", key, v, rest] => do
         match key.splitOn ":" with
         | [scn, ns] => do
@@ -397,6 +431,7 @@ def stepCore (line : List String) : Option String :=
         | "ta" => do
             let k ← rest.toNat?
             let input := (encodeA ty va).take k
+            if k < (encodeA ty va).length then pure (truncVerdict (decodeB ty input) input) else
             match decodeB ty input with
             | some (v', r) => pure (showVal ty v' ++ "@" ++ toString (input.length - r.length))
             | none => pure "fault"
@@ -406,6 +441,7 @@ def stepCore (line : List String) : Option String :=
             let ks ← parseKs rest e.length
             pure ("|".intercalate (ks.map fun k =>
               let input := e.take k
+              if !completeIn ty input then truncVerdict (decodeB ty input) input else
               match decodeB ty input with
               | some (v', r) => showVal ty v' ++ "@" ++ toString (input.length - r.length)
               | none => "fault"))
@@ -423,6 +459,7 @@ def stepCore (line : List String) : Option String :=
             let ks ← parseKs rest e.length
             pure ("|".intercalate (ks.map fun k =>
               let input := e.take k
+              if !completeIn ty input then truncVerdict (decS ty input) input else
               match decS ty input with
               | some (v', r) => showVal ty v' ++ "@" ++ toString (input.length - r.length)
               | none => "fault"))
@@ -431,8 +468,8 @@ def stepCore (line : List String) : Option String :=
         let ty ← parseTyStr t
         let bs ← parseBytes? h
         match op with
-        | "da" => pure (decodeShow decodeB ty bs)
-        | "ds" => if !ty.supportedS then pure "unsupported" else pure (decodeShow decS ty bs)
+        | "da" => pure (decodeShowC decodeB ty bs)
+        | "ds" => if !ty.supportedS then pure "unsupported" else pure (decodeShowC decS ty bs)
         | _ => none
     | op :: rest :: items => do
         let rs ← parseBytes? rest
